@@ -348,11 +348,14 @@ PROPS = {
         "units": ["V5_iter", "V4b_iter_inject"],
         "obligations": ["V4b_iter_inject.ComponentIterator.*", "V4b_iter_inject.fn:ComponentIterator as *", "V4b_iter_inject.ModuleIterator.*", "V4b_iter_inject.fn:ModuleIterator as *",
                         "V5_iter.ComponentSubIterator.*", "V5_iter.fn:ComponentSubIterator::*", "V5_iter.ModuleSubIterator.*", "V5_iter.fn:ModuleSubIterator::*",
-                        "V5_iter.handle_skips.*", "V5_iter.fn:next_module_with_work", "V5_iter.fn:lemma_next_live"],
+                        "V5_iter.handle_skips.*", "V5_iter.fn:next_module_with_work", "V5_iter.fn:lemma_next_live",
+                        "V4b_iter_inject.fn:ComponentIterator::new", "V4b_iter_inject.get_func_metadata.*", "V4b_iter_inject.fn:Module::get_func_metadata",
+                        "V4b_iter_inject.fn:lemma_metadata_members", "V4b_iter_inject.fn:Functions::get"],
         "glue": ["of the ComponentIterator injection methods, inject / set_instrument_mode_at / add_instr_at / empty_block_alt_at are under contract (same effect predicate `lf_added` as the ModuleIterator ones, on the addressed module, other modules untouched); inject_at, clear_instr_at, empty_alternate_at, append_tag_at and add_local are compared by reading only",
-                 "ComponentSubIterator::new / reset (HashMap clone plumbing) and ComponentIterator::new (metadata construction) are not under contract"],
+                 "ComponentIterator::{new,next,curr_loc,curr_op,reset} are under contract in V4b against the ComponentSubIterator contracts that V5 proves (assumed there in a weaker form: `settled()` = past the last module or on an instruction of module curr_mod, each clause implied by the V5 postcondition of the same function); `new` requires comp.num_modules == comp.modules.len() and parsed modules (ids are positions, recorded sizes are lengths, bodies non-empty) - the invariant parse_comp establishes, not proved here; print_metadata (stdout only) is a stub",
+                 "that injections keep `consistent()` (they do not change instruction counts) is not threaded through the injection methods"],
         "design_ref": "DESIGN.md §4 V5, §5 C26",
-        "level_text": "The component-level step is proved to be the module-level step inside a module and, at a module's end, the start state of the next module that has an unskipped function; the main injection entry points of both iterators are proved to have the same effect (the same predicate over LocalFunction::add_instr) on the function the iterator points at.",
+        "level_text": "The component iterator's start state and its state after reset() are proved to be the start state of the first module that has an unskipped function, under that module's own skip list (F29); the component-level step is proved to be the module-level step inside a module and, at a module's end, the start state of the next module that has an unskipped function; what curr_op / next hand out is proved to be the instruction at the reported location of the reported module, with the metadata of every module proved to list exactly its local functions; the main injection entry points of both iterators are proved to have the same effect (the same predicate over LocalFunction::add_instr) on the function the iterator points at.",
     },
     "C14": {
         "title": "Added locals get fresh indices of the requested type",
